@@ -194,6 +194,8 @@ def draws_rule(ctx, rid):
 
 
 def run(ctx):
+    from . import shared
+    shared.precedence_rule(ctx, "C15.R8")
     append_rule(ctx, "C15.R1")
     one_run_one_append_rule(ctx, "C15.R2")
     flags = {"to_df": [sweep.TRUE], "shuffle": [sweep.FALSE, sweep.TRUTHY], "parse": [sweep.FALSE, sweep.TRUE], "cases": [sweep.TRUTHY], "combos": [sweep.FALSY],
